@@ -103,7 +103,7 @@ def gen_op(rng, shared, claw_ok=True):
         return {'op': 'infer', 'x': H.gen_any_obj(rng, 2)}
     if r < 0.86:
         return {'op': 'decor_class', 'h': _gen_hint_obj(rng, shared)[0], 'x': _gen_hint_obj(rng, shared)[1],
-                'conf': rng.choice(CONF_POOL)}
+                'conf': rng.choice(CONF_POOL), 'name': 'K%d' % rng.randrange(10 ** 6) if rng.random() < 0.9 else 'K'}
     if not claw_ok:
         return {'op': 'typehint', 'h': _gen_hint_obj(rng, shared)[0]}
     if r < 0.93:
@@ -114,6 +114,19 @@ def gen_op(rng, shared, claw_ok=True):
         return {'op': 'claw_query', 'name': rng.choice(PKG_NAMES + ['aa.bb.cc.dd', 'zz'])}
     return {'op': 'beartyping', 'conf': rng.choice([None, {'tower': True}]),
             'body': [{'op': 'claw_query', 'name': rng.choice(PKG_NAMES)}]}
+
+
+def _flatten(oplist):
+    """``with beartyping(): body`` is three API steps (enter, body, exit) that other threads may interleave with."""
+    out = []
+    for o in oplist:
+        if o['op'] == 'beartyping':
+            out.append({'op': 'bt_enter', 'conf': o['conf']})
+            out.extend(o['body'])
+            out.append({'op': 'bt_exit'})
+        else:
+            out.append(o)
+    return out
 
 
 def gen_strategy(rng):
@@ -141,6 +154,7 @@ def generate(rng, run, tier):
     else:
         for _ in range(nthreads):
             threads.append([gen_op(rng, shared) for _ in range(rng.randint(1, 4))])
+    threads = [_flatten(t) for t in threads]
     prelude = [gen_op(rng, shared, claw_ok=False) for _ in range(rng.choice([0, 0, 1, 2, 3]))]
     avoid_cw = rng.random() < 0.8
     if avoid_cw:
@@ -202,6 +216,7 @@ def _run_op(op, ctx):
                 @classmethod
                 def c(cls, a):
                     return a
+            K.__name__ = K.__qualname__ = op.get('name', 'K')
             K.m.__annotations__ = {'a': hint}
             K.c.__func__.__annotations__ = {'a': hint}
             K2 = beartype.beartype(conf=ops.build_conf(op['conf']))(K)
@@ -223,13 +238,19 @@ def _run_op(op, ctx):
             out = ['ok', None]
         elif k == 'claw_query':
             out = ['ok', _claw_query(op['name'])]
-        elif k == 'beartyping':
+        elif k == 'bt_enter':
             from beartype import claw
-            inner = []
-            with claw.beartyping(conf=ops.build_conf(op['conf'])):
-                for o2 in op['body']:
-                    inner.append(_run_op(o2, ctx))
-            out = ['ok', inner]
+            cm = claw.beartyping(conf=ops.build_conf(op['conf']))
+            cm.__enter__()
+            ctx['cms'].setdefault(_thread_key(), []).append(cm)
+            out = ['ok', None]
+        elif k == 'bt_exit':
+            stack = ctx['cms'].get(_thread_key()) or []
+            if stack:
+                stack.pop().__exit__(None, None, None)
+                out = ['ok', None]
+            else:
+                out = ['ok', 'no-open-block']
         else:
             raise ValueError(op)
     except Exception as e:      # noqa
@@ -238,6 +259,18 @@ def _run_op(op, ctx):
     if w:
         out = out + [['warnings'] + sorted(w)]
     return out
+
+
+def _thread_key():
+    from sim import sched
+    s = sched.ACTIVE
+    if s is None:
+        return -1
+    t = s.by_ident.get(sched._get_ident())
+    return -1 if t is None else (t.tid if len(s.tasks) > 1 else ctx_serial_tid[0])
+
+
+ctx_serial_tid = [0]
 
 
 def _norm_call(fn):
@@ -356,7 +389,7 @@ def execute(case):
     showwarning_expected = warnings.showwarning
     impl_expected = warnings._showwarnmsg_impl
     filters_expected = list(warnings.filters)
-    ctx = {'rec': rec, 'confs': [], 'typehints': []}
+    ctx = {'rec': rec, 'confs': [], 'typehints': [], 'cms': {}}
     prelude_out = [_run_op(o, ctx) for o in case['prelude']]
     outs = [[None] * len(t) for t in case['threads']]
 
@@ -379,6 +412,7 @@ def execute(case):
         # one task executing the operations in the given global order
         def serial_body():
             for ti, oi in order:
+                ctx_serial_tid[0] = ti
                 outs[ti][oi] = _run_op(case['threads'][ti][oi], ctx)
         tasks = s.run([serial_body])
     else:
@@ -399,6 +433,9 @@ def execute(case):
         if any(o is not objs[0] for o in objs):
             problems.append(['singleton_conf', repr(objs[0])[:200]])
     ths = ctx['typehints']
+    names = [o.get('name', 'K') for t in case['threads'] + [case['prelude']] for o in t if o['op'] == 'decor_class']
+    if len(names) != len(set(names)):
+        ths = []        # redefining a same-named class makes beartype clear its caches, sequentially too
     for i in range(len(ths)):
         for j in range(i + 1, len(ths)):
             hi, hj = ths[i][0], ths[j][0]
@@ -438,7 +475,7 @@ def execute(case):
         'cold_shared_hint': 1 if _has_shared_cold(case) else 0,
         'conf_race': 1 if sum(1 for t in case['threads'] if any(o['op'] == 'conf' for o in t)) > 1 else 0,
         'typehint_race': 1 if sum(1 for t in case['threads'] if any(o['op'] == 'typehint' for o in t)) > 1 else 0,
-        'claw_ops': sum(1 for t in case['threads'] for o in t if o['op'].startswith('claw') or o['op'] == 'beartyping'),
+        'claw_ops': sum(1 for t in case['threads'] for o in t if o['op'].startswith('claw') or o['op'].startswith('bt_')),
         'warn_mode_ops': sum(1 for t in case['threads'] for o in t if ops.conf_is_warn(o.get('conf'))),
         'cw_overlaps': len(cw_overlaps),
     }
@@ -462,7 +499,7 @@ def _has_shared_cold(case):
     return False
 
 
-STATEFUL = ('claw_pkg', 'claw_query', 'beartyping')
+STATEFUL = ('claw_pkg', 'claw_query', 'bt_enter', 'bt_exit')
 
 
 def _is_stateful(op):
